@@ -133,6 +133,65 @@ type c15World struct {
 	cycleIDs []uint16
 	cycleHit chan struct{} // closed when the first (blocked) request is on the wire
 	sink     bool          // the peer ignores everything (family wrapc, path B)
+	syncCh   chan string   // topics of inbound "sync/..." messages as the handler sees them
+	syncN    int
+	inject   []c15In // inbound packets the peer throws in between the requests (family conc)
+}
+
+// c15In: a packet from the broker carrying identifier ID: PUBLISH with QoS Q (0, 1, 2) or, Q = 3, PUBREL.
+// The identifiers of the two directions are independent: whatever ID is, the client's own
+// identifiers must not be affected.
+type c15In struct {
+	Q  byte
+	ID uint16
+}
+
+func (in c15In) coq(ctor string) string { return fmt.Sprintf("%s %d %d", ctor, in.Q, in.ID) }
+func (in c15In) desc() string {
+	if in.Q == 3 {
+		return fmt.Sprintf("inbound PUBREL(id=%d)", in.ID)
+	}
+	return fmt.Sprintf("inbound PUBLISH(q%d,id=%d)", in.Q, in.ID)
+}
+func (in c15In) bytes() []byte {
+	if in.Q == 3 {
+		return encID(0x62, in.ID)
+	}
+	return encPublish(inMsg{Topic: []byte("in"), ID: in.ID, QoS: in.Q, Payload: []byte{7}})
+}
+
+// handleInbound installs the handler that makes inbound traffic observable: a QoS 0 message on
+// "sync/<n>" is the marker the scenario waits for (the reader handles packets in order, so everything
+// sent before the marker has been processed when the handler sees it).
+func (w *c15World) handleInbound() {
+	w.syncCh = make(chan string, 64)
+	w.s.cli.Handle(mqtt.HandlerFunc(func(m *mqtt.Message) {
+		if strings.HasPrefix(m.Topic, "sync/") {
+			select {
+			case w.syncCh <- m.Topic:
+			default:
+			}
+		}
+	}))
+}
+
+// inbound delivers the packet to the client and waits until the client's reader is past it.
+func (w *c15World) inbound(in c15In) bool {
+	w.syncN++
+	topic := fmt.Sprintf("sync/%d", w.syncN)
+	w.s.conn.send(append(in.bytes(), encPublish(inMsg{Topic: []byte(topic), QoS: 0, Payload: []byte{1}})...))
+	deadline := time.After(c15WaitDur())
+	for {
+		select {
+		case t := <-w.syncCh:
+			if t == topic {
+				return true
+			}
+		case <-deadline:
+			atomic.AddInt32(&c15Expired, 1)
+			return false
+		}
+	}
 }
 
 func c15Varint(b []byte) (n, used int) {
@@ -243,7 +302,15 @@ func (w *c15World) sawRequest(tag string, id uint16, kind byte) {
 	rec.id = id
 	rec.ord = len(w.order)
 	w.order = append(w.order, rec)
+	var throw []byte
+	if len(w.inject) > 0 && rec.ord%2 == 1 {
+		throw = w.inject[0].bytes()
+		w.inject = w.inject[1:]
+	}
 	w.mu.Unlock()
+	if throw != nil {
+		w.s.conn.send(throw)
+	}
 	close(rec.wrote)
 }
 
@@ -254,6 +321,7 @@ func c15NewWorld(cycle bool) (*c15World, error) {
 		return nil, err
 	}
 	w.s = s
+	w.handleInbound()
 	return w, nil
 }
 
@@ -399,15 +467,26 @@ type c15Ev struct {
 	J       int
 	UseFrom bool
 	From    int
+	In      bool // an inbound packet (In1); with UseFrom its identifier is the one request From uses
+	In1     c15In
 }
 
 func (e c15Ev) coq() string {
+	if e.In {
+		return e.In1.coq("HIn")
+	}
 	if e.Ack || e.Cancel {
 		return fmt.Sprintf("HAck %d", e.J)
 	}
 	return "HReq (" + e.Req.coq() + ")"
 }
 func (e c15Ev) desc() string {
+	if e.In {
+		if e.UseFrom {
+			return fmt.Sprintf("%s = that of #%d", e.In1.desc(), e.From)
+		}
+		return e.In1.desc()
+	}
 	if e.Cancel {
 		return fmt.Sprintf("cancel#%d", e.J)
 	}
@@ -444,6 +523,72 @@ func c15RandReq(r *rand.Rand) c15Req {
 // its first attempt (what an application does after a timeout). Now and then a publish carries the
 // identifier of a SUBSCRIBE/UNSUBSCRIBE that is still waiting (a different kind of request: the
 // acknowledgements cannot be confused).
+// c15AdvIn: an inbound packet with an identifier chosen to hurt: that of an outstanding request of the
+// client, the top of the range, 1, around the position of the client's counter (autos = identifiers
+// the client has chosen so far), just behind the start, or anything.
+func c15AdvIn(r *rand.Rand, s uint32, autos int, outstanding []int) c15Ev {
+	e := c15Ev{In: true, In1: c15In{Q: byte(r.Intn(4))}}
+	switch x := r.Intn(10); {
+	case x < 3 && len(outstanding) > 0:
+		e.UseFrom = true
+		e.From = outstanding[r.Intn(len(outstanding))]
+		if r.Intn(2) == 0 {
+			e.From = outstanding[0]
+		}
+	case x < 5:
+		e.In1.ID = uint16(0xFFFF - r.Intn(4))
+	case x < 6:
+		e.In1.ID = uint16(1 + r.Intn(3))
+	case x < 8:
+		e.In1.ID = c15Nth(s, autos+r.Intn(5)-1)
+	case x < 9:
+		e.In1.ID = c15Nth(s, -r.Intn(4))
+	default:
+		e.In1.ID = uint16(r.Intn(65535) + 1)
+	}
+	if e.In1.Q == 0 || e.In1.Q == 3 {
+		if r.Intn(2) == 0 {
+			e.In1.Q = byte(1 + r.Intn(2)) // mostly the kinds that carry an identifier the client must answer
+		}
+	}
+	return e
+}
+
+// pIn = chance (percent) of inbound packets after a request.
+func c15GenHistoryIn(r *rand.Rand, s uint32, n, pAck, pGiven, pCancel, pIn int) []c15Ev {
+	h := c15GenHistory(r, s, n, pAck, pGiven, pCancel)
+	if pIn == 0 {
+		return h
+	}
+	var out []c15Ev
+	var outstanding []int
+	total, autos := 0, 0
+	for _, e := range h {
+		out = append(out, e)
+		switch {
+		case e.Ack || e.Cancel:
+			for i, j := range outstanding {
+				if j == e.J {
+					outstanding = append(outstanding[:i], outstanding[i+1:]...)
+					break
+				}
+			}
+		default:
+			if e.Req.tracked() {
+				outstanding = append(outstanding, total)
+			}
+			if e.Req.auto() && !e.UseFrom {
+				autos++
+			}
+			total++
+			for r.Intn(100) < pIn {
+				out = append(out, c15AdvIn(r, s, autos, outstanding))
+			}
+		}
+	}
+	return out
+}
+
 func c15GenHistory(r *rand.Rand, s uint32, n, pAck, pGiven, pCancel int) []c15Ev {
 	var h []c15Ev
 	var outstanding []int
@@ -520,6 +665,19 @@ func c15GenHistory(r *rand.Rand, s uint32, n, pAck, pGiven, pCancel int) []c15Ev
 // readable), the history as executed (identifiers of UseFrom events resolved), and what got stuck.
 func c15Exec(o *c15Out, w *c15World, ctx context.Context, h []c15Ev) (recs []*c15Rec, obs, desc, hin []string, stuck string) {
 	for _, e := range h {
+		if e.In {
+			if e.UseFrom {
+				e.In1.ID = recs[e.From].obsID()
+			}
+			hin = append(hin, e.coq())
+			if !w.inbound(e.In1) {
+				stuck = "the client did not get past " + e.In1.desc()
+				break
+			}
+			desc = append(desc, e.In1.desc())
+			o.kinds["inbound"]++
+			continue
+		}
 		if e.Ack || e.Cancel {
 			hin = append(hin, e.coq())
 			rec := recs[e.J]
@@ -680,6 +838,25 @@ func c15RunConc(o *c15Out, r *rand.Rand, s uint32, progs [][]c15Req) error {
 			}
 		}(k)
 	}
+	// the peer throws inbound packets with awkward identifiers in between the requests it sees
+	var thrown []c15In
+	if r.Intn(3) > 0 {
+		for k := r.Intn(8); k > 0; k-- {
+			in := c15In{Q: byte(1 + r.Intn(3))}
+			switch r.Intn(5) {
+			case 0:
+				in.ID = uint16(0xFFFF - r.Intn(4))
+			case 1:
+				in.ID = uint16(1 + r.Intn(3))
+			case 2:
+				in.ID = uint16(r.Intn(65535) + 1)
+			default:
+				in.ID = c15Nth(s, 1+r.Intn(6)) // an identifier one of the callers is about to hold
+			}
+			thrown = append(thrown, in)
+		}
+		w.inject = append([]c15In{}, thrown...)
+	}
 	close(start)
 	wg.Wait()
 	close(stuckCh)
@@ -775,8 +952,17 @@ func c15RunConc(o *c15Out, r *rand.Rand, s uint32, progs [][]c15Req) error {
 	for _, a := range w.anomaly {
 		o.violation("anomaly", a)
 	}
+	var tdesc []string
+	w.mu.Lock()
+	sent := len(thrown) - len(w.inject)
+	w.mu.Unlock()
+	for _, in := range thrown[:sent] {
+		sched = append(sched, in.coq("LIn")) // wherever they fell between the increments: the model ignores them
+		tdesc = append(tdesc, in.desc())
+		o.kinds["inbound"]++
+	}
 	o.conc = append(o.conc, cTuple(cN(uint64(s)), cListInline(ps), cListInline(sched), cListInline(wire)))
-	c := map[string]interface{}{"start_counter": s, "callers": len(progs), "programs": pd, "wire_order": wdesc}
+	c := map[string]interface{}{"start_counter": s, "callers": len(progs), "programs": pd, "wire_order": wdesc, "inbound_packets_thrown_in": tdesc}
 	o.m.Families["conc"] = append(o.m.Families["conc"], c)
 	o.starts[c15StartClass(s)]++
 	if len(progs) >= 2 && total >= 4 {
@@ -1238,6 +1424,31 @@ func runC15(cfg *runCfg) error {
 			}
 		}
 	}
+	// round 7: inbound traffic. Requests outstanding across the 16-bit wrap, then a PUBLISH / PUBREL
+	// from the broker carrying the identifier of the oldest outstanding request (or the top of the
+	// range, or 1), then further requests: they must continue the client's own sequence
+	for _, s := range []uint32{0xFFFC, 0xFFFD, 0x2FFFB, 0xFFFFFFFC, 500} {
+		for _, q := range []byte{1, 2, 3, 0} {
+			for v := 0; v < 3; v++ {
+				in := c15Ev{In: true, In1: c15In{Q: q}}
+				switch v {
+				case 0:
+					in.UseFrom, in.From = true, 0
+				case 1:
+					in.In1.ID = 0xFFFF
+				default:
+					in.In1.ID = c15Nth(s, 2)
+				}
+				h := []c15Ev{{Req: c15Req{Kind: 's'}}, {Req: c15Req{Kind: 'p', QoS: 1}}, {Req: c15Req{Kind: 'u'}},
+					{Req: c15Req{Kind: 'p', QoS: 2}}, {Req: c15Req{Kind: 's'}}, in,
+					{Req: c15Req{Kind: 'p', QoS: 1}}, {Req: c15Req{Kind: 'u'}}, {In: true, In1: c15In{Q: 2, ID: 1}}, {Req: c15Req{Kind: 's'}},
+					{Ack: true, J: 0}, {Ack: true, J: 5}, {Ack: true, J: 1}}
+				if err := c15RunSeq(o, s, false, h); err != nil {
+					return err
+				}
+			}
+		}
+	}
 	// the library's own start value
 	for i := 0; i < 6; i++ {
 		if err := c15RunSeq(o, 0, true, c15GenHistory(r, 30000, 3+r.Intn(10), 30, 0, 0)); err != nil {
@@ -1253,7 +1464,8 @@ func runC15(cfg *runCfg) error {
 		if pCancel > 0 && pAck == 0 {
 			pAck = 30
 		}
-		if err := c15RunSeq(o, s, false, c15GenHistory(r, s, n, pAck, pGiven, pCancel)); err != nil {
+		pIn := []int{0, 30, 50}[r.Intn(3)]
+		if err := c15RunSeq(o, s, false, c15GenHistoryIn(r, s, n, pAck, pGiven, pCancel, pIn)); err != nil {
 			return err
 		}
 	}
